@@ -327,6 +327,12 @@ func (x *fnCtx) step(st *State, fr *Frame, in ssa.Instruction) {
 			x.lockCheckAccess(st, fr, in, a, false)
 			lv := x.load(st, a)
 			lv.Src = a
+			if g, ok := v.X.(*ssa.Global); ok {
+				if x.eng.db.Globals[g.Pkg.Pkg.Path()+"."+g.Name()] == "nonnil" {
+					st.assume(Ne(lv.L[0], IntLit(0)))
+					libUsed["global "+g.Pkg.Pkg.Path()+"."+g.Name()+" is non-nil (package initialisation, A-INIT)"] = true
+				}
+			}
 			x.assumeValAllocated(st, lv)
 			for _, f := range rangeFacts(lv) {
 				st.assume(f)
